@@ -229,9 +229,7 @@ func runProp(w *World, p *Prop, tier string, seed int, known *Known, verbose, wr
 			fmt.Printf("  violation: rule=%s key=%s at %s: %s\n", o.Rule, o.Key, o.Pos, o.Detail)
 		}
 		fmt.Printf("VIOLATION property=%s replay=%s\n", p.ID, violPath)
-		if rc < 1 {
-			rc = 1
-		}
+		rc = 1 // a definite violation takes precedence over undecided obligations
 	} else if writeFiles {
 		os.Remove(violPath)
 	}
